@@ -4,7 +4,7 @@
    code), all outcomes, all signals, all contexts and ALL death indices k by case analysis: the
    shape of the run depends only on (done?, failed present?, variant, outcome class) and k is split
    into 0..17 and "beyond the end of the run".                                                      *)
-From Coq Require Import ZArith List Bool Lia.
+From Coq Require Import ZArith List Bool Lia Arith.
 From XV Require Import model.Runner.
 Import ListNotations.
 
@@ -671,3 +671,67 @@ Proof.
   - destruct fl; split_outcome o; destruct g, c; split_k k ltac:(reflexivity).
   - destruct fl; split_outcome o; reflexivity.
 Qed.
+
+(* ------------------------------------------------------------------ round 7: the lock file *)
+(* all processes look at one inode *)
+Definition one_inode (s : lst) : Prop :=
+  exists i, (forall q j, In (q, j) (lk_ino s) -> j = i) /\ (forall q j, In (q, j) (lk_held s) -> j = i) /\
+            (lk_file s = None -> lk_ino s = [] /\ lk_held s = []) /\ (forall j, lk_file s = Some j -> j = i) /\
+            length (lk_held s) <= 1.
+
+Lemma lk_lookup_in : forall p l i, lk_lookup p l = Some i -> In (p, i) l.
+Proof.
+  induction l as [|[q j] l IH]; simpl; intros i H; [discriminate|].
+  destruct (Nat.eqb p q) eqn:E.
+  - apply Nat.eqb_eq in E. inversion H. subst. left. reflexivity.
+  - right. apply IH, H.
+Qed.
+
+Lemma filter_length_le : forall {A} (f : A -> bool) l, length (filter f l) <= length l.
+Proof. intros A f l. induction l as [|x l IH]; simpl; [lia|]. destruct (f x); simpl; lia. Qed.
+
+Lemma one_inode_step : forall s e, one_inode s -> (match e with LUnlink => False | _ => True end) -> one_inode (lk_step s e).
+Proof.
+  intros s e (i & Hi & Hh & Hn & Hf & Hl) He. destruct e as [p|p|p|]; [| | |contradiction]; simpl.
+  - destruct (lk_file s) as [j|] eqn:F.
+    + exists i. simpl. refine (conj _ (conj _ (conj _ (conj _ _)))); auto; try discriminate;
+        try (intros q k [E|E]; [inversion E; subst; apply Hf; reflexivity | eauto]);
+        try (intros k E; inversion E; subst; apply Hf; reflexivity).
+    + destruct (Hn eq_refl) as [N1 N2]. exists (lk_fresh s). simpl. rewrite N1, N2. simpl.
+      refine (conj _ (conj _ (conj _ (conj _ _)))); try discriminate; try lia;
+        try (intros q k [E|[]]; inversion E; reflexivity); try (intros q k []); try (intros k E; inversion E; reflexivity).
+  - destruct (lk_lookup p (lk_ino s)) as [j|] eqn:L; [|exists i; auto 6].
+    destruct (existsb (fun h => Nat.eqb (snd h) j) (lk_held s)) eqn:X; [exists i; auto 6|].
+    assert (J : j = i) by (apply (Hi p), lk_lookup_in, L).
+    exists i. simpl. refine (conj Hi (conj _ (conj _ (conj Hf _)))).
+    + intros q k [E|E]; [inversion E; subst; reflexivity | apply (Hh q k E)].
+    + intros F. destruct (Hn F) as [N1 _]. rewrite N1 in L. discriminate.
+    + destruct (lk_held s) as [|[q k] r] eqn:R; simpl; [lia|]. exfalso.
+      simpl in X. apply orb_false_iff in X. destruct X as [X _].
+      assert (k = i) by (apply (Hh q); left; reflexivity). subst.
+      rewrite Nat.eqb_refl in X. discriminate.
+  - exists i. simpl. refine (conj _ (conj _ (conj _ (conj _ _)))); auto;
+      try (intros q k H; apply filter_In in H; destruct H; eauto; fail);
+      try (intros F; destruct (Hn F) as [N1 N2]; rewrite N2; auto; fail).
+    pose proof (filter_length_le (fun h => negb (Nat.eqb (fst h) p)) (lk_held s)). lia.
+Qed.
+
+(* as long as nobody unlinks the lock file: at most one process holds the run lock, whatever the processes do *)
+Lemma lock_file_kept_exclusive : forall l, no_unlink l = true -> length (lk_held (lk_run lk0 l)) <= 1.
+Proof.
+  intros l H.
+  assert (G : forall l s, no_unlink l = true -> one_inode s -> one_inode (lk_run s l)).
+  { clear. induction l as [|e l IH]; intros s H I; simpl; [exact I|].
+    simpl in H. apply andb_true_iff in H. destruct H as [He Hl].
+    apply IH; [exact Hl|]. apply one_inode_step; [exact I|]. destruct e; auto; discriminate. }
+  assert (I0 : one_inode lk0).
+  { exists 0. simpl. repeat split; auto; try discriminate; try (intros q j []). }
+  destruct (G l lk0 H I0) as (i & _ & _ & _ & _ & L). exact L.
+Qed.
+
+(* cleanup unlinks the lock file after releasing it (A = 0 ends while B = 1 waits; C = 2 comes later):
+   B gets the lock of the unlinked inode, C creates a new file and gets its lock at once: two holders *)
+Lemma lock_file_unlinked_refuted :
+  exists l, lk_held (lk_run lk0 l) = [(2, 1); (1, 0)] /\
+            l = [LOpen 0; LAcquire 0; LOpen 1; LAcquire 1; LRelease 0; LUnlink; LAcquire 1; LOpen 2; LAcquire 2].
+Proof. eexists. split; [|reflexivity]. reflexivity. Qed.
